@@ -170,7 +170,10 @@ def check_runner_case(case):
     p1 = [tuple(c) for c in case["pat"]]
     p2 = [tuple(c) for c in case["pat2"]]
     spec = [("R", p1, "1", None), ("R", p2, "2", None)]
-    writes, raised = impl_runner(spec, case["out"], case["err"])
+    try:
+        writes, raised = common.with_timeout(impl_runner, 30, spec, case["out"], case["err"])
+    except common.Hang:
+        return "[hang] the run did not return"
     if raised:
         return "plain responders raised %s" % raised
     for p, tag in ((p1, "1"), (p2, "2")):
